@@ -187,6 +187,56 @@ type RefM struct {
 	// NonGreedy semantics switch: when set, a rule of the C08 shape ends at the
 	// first complete match (decided by NGStop).
 	NGStop func(m *RefM) bool
+	// IsNG tells which rules contain a non-greedy repetition (nil: none).
+	IsNG func(r *lexref.Rule) bool
+}
+
+// Ambiguous reports the one situation in which the two clauses of C08 pull in
+// different directions: a non-greedy rule matches the run exactly (its token
+// should end here) while a greedy rule could still extend the run with the
+// pending rune (its longest match is longer). The statement does not say who
+// wins; the explorer then follows the real machine and only requires that
+// whatever is emitted matches the run exactly.
+func (m *RefM) Ambiguous(atom int) bool {
+	if m.IsNG == nil || atom < 0 {
+		return false
+	}
+	ngDone := false
+	for i := range m.St.Mode.Rules {
+		if m.IsNG(&m.St.Mode.Rules[i]) && m.C.Nullable(m.St.R[i]) {
+			ngDone = true
+		}
+	}
+	if !ngDone {
+		return false
+	}
+	n := m.C.Step(m.St, atom)
+	for i := range m.St.Mode.Rules {
+		if !m.IsNG(&m.St.Mode.Rules[i]) && n.R[i] != 0 {
+			return true
+		}
+	}
+	return false
+}
+
+// ForceConsume makes the reference consume atom (used in ambiguous situations).
+func (m *RefM) ForceConsume(atom int) Event {
+	n := m.C.Step(m.St, atom)
+	if !n.Viable() {
+		return Event{K: EvError}
+	}
+	m.St = n
+	m.Empty = false
+	return Event{K: EvConsume}
+}
+
+// ForceAct makes the reference end the run here.
+func (m *RefM) ForceAct() Event {
+	save := m.NGStop
+	m.NGStop = func(*RefM) bool { return true }
+	ev := m.Push(0)
+	m.NGStop = save
+	return ev
 }
 
 func NewRefM(c *lexref.Compiled) *RefM {
@@ -288,6 +338,7 @@ type ProductOpts struct {
 	// CompareEvents: when false only viability/termination aspects are checked (C11 on nullable specs).
 	CompareEvents bool
 	NGStop        func(m *RefM) bool
+	IsNG          func(r *lexref.Rule) bool
 	MaxStates     int
 }
 
@@ -296,6 +347,7 @@ type ProductResult struct {
 	Mismatches          []*Mismatch
 	DepthCapped         int
 	StateCapped         bool
+	Ambiguous           int
 }
 
 type pnode struct {
@@ -382,6 +434,7 @@ func Product(b *Built, car *ctypes.Carrier, o ProductOpts) *ProductResult {
 	}
 	root := &pnode{sm: car.NewSM(), ref: NewRefM(b.C)}
 	root.ref.NGStop = o.NGStop
+	root.ref.IsNG = o.IsNG
 	seen := map[string]bool{smKey(root.sm) + "#" + root.ref.Key(): true}
 	queue := []*pnode{root}
 	report := func(n *pnode, r int, kind, detail string) {
@@ -419,7 +472,17 @@ func Product(b *Built, car *ctypes.Carrier, o ProductOpts) *ProductResult {
 			if r >= 0 {
 				atom = b.C.AtomOf(r)
 			}
-			rev := ref.Push(atom)
+			var rev Event
+			if ref.Ambiguous(atom) {
+				res.Ambiguous++
+				if iev.K == EvConsume {
+					rev = ref.ForceConsume(atom)
+				} else {
+					rev = ref.ForceAct()
+				}
+			} else {
+				rev = ref.Push(atom)
+			}
 			if ref.Dead {
 				// unmatched @pop_mode: nothing is defined afterwards; the real
 				// machine must report an error too, then the branch is closed
@@ -429,7 +492,7 @@ func Product(b *Built, car *ctypes.Carrier, o ProductOpts) *ProductResult {
 				continue
 			}
 			if o.CompareEvents && iev != rev {
-				report(n, r, "event", fmt.Sprintf("state machine returned %s, the rules define %s", iev, rev))
+				report(n, r, "event-"+EvName(iev.K)+"-vs-"+EvName(rev.K), fmt.Sprintf("state machine returned %s, the rules define %s", iev, rev))
 				continue
 			}
 			if !o.CompareEvents && (iev.K == EvConsume) != (rev.K == EvConsume) {
